@@ -209,6 +209,7 @@ class AWSElastiCacheHashClient(HashClient):
                 "Seems like it is ElastiCache Serverless or even isn't ElastiCache at all.",
                 client.server,
             )
+            raise
         finally:
             client.close()
 
